@@ -150,6 +150,6 @@ def outcome_class(out):
 
 
 def evidence_extra():
-    unm = sorted({f"{c.__name__}:{D.family(c)}" for c in JSON_CLASSES if D.family(c).startswith("unmodelled")})
+    unm = sorted({f"{c.__name__}:{D.FAM[c.__name__]}" for c in JSON_CLASSES if D.FAM[c.__name__].startswith("unmodelled")})
     return {"payload_evaluations": _stats["payloads"], "payloads_accepted_and_round_tripped": _stats["accepted"],
             "classes_covered": len(_stats["classes"]), "classes_total": len(JSON_CLASSES), "unmodelled_classes": unm}
